@@ -437,7 +437,9 @@ func checkLaunch(c LaunchCase) pbt.Verdict {
 	return v
 }
 
-var lkeys = []string{"VRF_K1", "VRF_K2", "VRF_K3"}
+// names that are prefixes of one another (and of the injected PC_ variables): a lookup by anything
+// but the exact name shows
+var lkeys = []string{"VRF_K1", "VRF_K2", "VRF_K3", "VRF_K", "VRF_K1_X", "PC"}
 
 func genLaunch(t *rapid.T) LaunchCase {
 	c := LaunchCase{Inherited: map[string]string{}, EnvCmds: map[string]string{}}
